@@ -222,13 +222,13 @@ func listStr(l []string) string {
 
 // ---------------------------------------------------------------------------------------------- generator
 
-var segPool = []string{"a", "b", "a-", "a.", "a0", "ab", "é", "~", "-", "0", "foo", "m", "z", "a~", "€", "b0", "aé"}
+var segPool = []string{"a", "b", "a-", "a.", "a0", "ab", "é", "~", "-", "0", "foo", "m", "z", "a~", "€", "b0", "aé", "a.temp", "b.temp", ".temp"}
 
 // segments most layers or backends treat specially
 var oddSegs = []string{".", "..", "", "_x", "x.temp", "a\x00", "\xff", "\u200b", "a b", "..a", "a..b", "...", ".a", "\u00ad", "a\xc3", "\u03b1", " "}
 
 func fileSegOK(s string) bool {
-	return s != "" && s != "." && !strings.Contains(s, "..") && s[0] != '_' && !strings.HasSuffix(s, ".temp") &&
+	return s != "" && s != "." && !strings.Contains(s, "..") && s[0] != '_' &&
 		!strings.Contains(s, "\x00") && len(s) <= 200
 }
 
@@ -1181,7 +1181,44 @@ func Run(out *vh.Out, seed uint64, targets []Target, cases int, bigCases int) {
 		if t.KeySizeBoundary {
 			keySizeCase(out, t)
 		}
+		if t.Kind == "file" {
+			underscoreCase(out, t)
+		}
 	}
+}
+
+// underscoreCase (file backend): the entry of key "a" is the file "_a"; the entries below prefix "_a/" live in the
+// directory "_a" — one name on disk. Keys with a segment that starts with '_' are kept out of the trace model
+// (DESIGN C13, admissible keys); this predicate-level line records what the two keys do to each other.
+// Op line: underscore => a=<ok|err|lost> x=<ok|err|lost>
+func underscoreCase(out *vh.Out, tgt Target) {
+	b := tgt.Fresh()
+	ctx := context.Background()
+	out.Reset()
+	out.Op("ok", "cfg", tgt.Kind, "-")
+	st := func(k string, want []byte) string {
+		e, err := b.Get(ctx, k)
+		switch {
+		case err != nil:
+			return "err"
+		case e == nil || string(e.Value) != string(want):
+			return "lost"
+		}
+		return "ok"
+	}
+	e1 := b.Put(ctx, &physical.Entry{Key: "a", Value: []byte{1}})
+	e2 := b.Put(ctx, &physical.Entry{Key: "_a/x", Value: []byte{2}})
+	res := "a=" + st("a", []byte{1}) + " x=" + st("_a/x", []byte{2})
+	if e1 != nil {
+		res += " puta=err"
+	}
+	if e2 != nil {
+		res += " putx=err"
+	}
+	if res != "a=ok x=ok" {
+		res += "!VIOL:file backend: key \"a\" and the keys below prefix \"_a/\" share the on-disk name \"_a\": " + res + "#F87:file-underscore-name-collision"
+	}
+	out.Op(res, "underscore")
 }
 
 // keySizeCase: bbolt refuses keys longer than 32768 bytes; the raft backend checks the same bound before proposing.
